@@ -491,6 +491,11 @@ def run(model, tier="quick"):
     # constructors establish the relations between fields that the references above take for granted
     from .ctor_refs import constructors
     res.units["constructor_references"] = constructors(res, model, ('gmx2', 'market'))
+    # premises: the token whitelist is a set of TokenInfo (equality and hash by name, so one token is one entry whatever its
+    # spelling); the enums that select fee branches have pairwise distinct members
+    from .base_refs import token_identity, enum_values_unique
+    token_identity(res, model)
+    res.units["enums_checked"] = enum_values_unique(res, model, scope=("demeter/gmx/",))
     from ..rules.fresh import fresh_rule
     if "R-FRESH" not in res.rules:
         res.rules.append("R-FRESH")
